@@ -104,6 +104,20 @@ def run(ck: Check) -> None:
         if n:
             cases.append(Case("vgpg", [e, k.hex, data[:-1]], tag="payload-shortened", group=1000 + i))
             want.append("E InvalidSignature")
+    # hashed areas of every length on a buffer / length-field boundary (notation data and policy URIs can be long; the 16-bit count inside the area says
+    # nothing about how much was hashed — the rule hashes the entry's header bytes, all of them, and their 32-bit length)
+    for j, n in enumerate(x for x in gen.sizes_of_interest() if 255 <= x <= 140000):
+        if not ck.thorough and j % 2 and n not in (32768, 65535, 65536, 65537):
+            continue
+        body = bytes([rng.getrandbits(8)]) * (n - 6)
+        hdr = bytes([4, 0, 22, 8]) + struct.pack(">H", (n - 6) & 0xFFFF) + body
+        k = gen.key(j % 10)
+        data = gen.oracle_bytes({"long-header": n})
+        e = gen.gpg_entry(k, data, hdr)
+        cases.append(Case("vgpg", [e, k.hex, data], tag="valid-long-header", group=1700 + j))
+        want.append("OK")
+        cases.append(Case("vgpg", [{**e, "other_headers": e["other_headers"][:-2]}, k.hex, data], tag="long-header-shortened", group=1700 + j))
+        want.append("E InvalidSignature")
     # directed: hashed areas stating lifetimes that are long over / not yet begun / zero, plainly and marked critical (gpg --default-sig-expire,
     # --ask-sig-expire, faked clocks): the library documents that it disregards OpenPGP expiry, so each is valid like any other well-signed entry
     fpr = b"\x04" + bytes(range(20))
